@@ -33,6 +33,13 @@ def detect(pid, x, tier):
     finally:
         sh(["git", "-C", REPO, "checkout", "--", "."])
     viol = [l for l in out.splitlines() if l.startswith("VIOLATION")]
+    # HARVEST=<dir>: keep the first violating case as a stored regression input <dir>/<ID>/seeded-<X>.json
+    harvest = os.environ.get("HARVEST")
+    if harvest and rc == 1 and viol:
+        m = re.search(r"replay=(\S+)", viol[0])
+        if m and os.path.exists(m.group(1)) and "/replays/new/" in m.group(1):
+            os.makedirs(os.path.join(harvest, pid), exist_ok=True)
+            shutil.copy(m.group(1), os.path.join(harvest, pid, "seeded-%s.json" % x))
     msgs = [l for l in out.splitlines() if l.startswith("  message")]
     verdict = {0: "MISSED", 1: "DETECTED"}.get(rc, "INCONCLUSIVE rc=%d" % rc)
     print("%s-%s [%s] %s  violations=%d" % (pid, x, tier, verdict, len(viol)))
